@@ -5,6 +5,7 @@ import (
 	"context"
 	"encoding/json"
 	"fmt"
+	"runtime"
 	"testing"
 
 	"go.uber.org/thriftrw/protocol/binary"
@@ -214,6 +215,11 @@ func (s HistStep) describe() string {
 }
 
 func checkHistory(c HistCase) error {
+	// Every case starts from empty reader pools (two collections empty a
+	// sync.Pool and its victim cache), so that the history a verdict depends
+	// on is the one recorded in the case and a replay sees the same thing.
+	runtime.GC()
+	runtime.GC()
 	for i, s := range c.Steps {
 		before := "nothing"
 		if i > 0 {
@@ -337,6 +343,9 @@ func histClasses(c HistCase) (cls []string, nontriv bool) {
 }
 
 func TestRequestHistory(t *testing.T) {
+	// one P: the per-case pool flush (two collections) stays cheap, and a
+	// reader put back is the one handed out next
+	defer runtime.GOMAXPROCS(runtime.GOMAXPROCS(1))
 	rapid.Check(t, func(t *rapid.T) {
 		n := rapid.IntRange(1, 6).Draw(t, "steps")
 		c := HistCase{Reply: genBody(t, "reply"), ReplyTyp: rapid.SampledFrom([]int8{2, 3}).Draw(t, "reply_type")}
